@@ -27,7 +27,9 @@ def np_():
 
 
 DTYPES = ["bool", "i1", "u2", "<i4", ">i4", "<f8", ">f8", "c16", "S3", "U2", "M8[ns]", "m8[s]",
-          "struct-aligned", "struct-packed", "struct-nested", "struct-bigendian", "object", "f2", "<u8"]
+          "struct-aligned", "struct-packed", "struct-nested", "struct-bigendian", "object", "f2", "<u8",
+          # records mixing native and non-native fields, and non-native fields next to fields without byte order
+          "struct-mixed-endian", "struct-mixed-nested", "struct-big+bytes"]
 SHAPES = [(), (0,), (1,), (3,), (2, 3), (0, 3), (2, 0, 2), (2, 3, 4)]
 LAYOUTS = ["C", "F", "T", "strided", "negstride", "broadcast", "memmap", "memmap-slice"]
 SUBCLASSES = ["ndarray", "matrix", "user"]
@@ -43,6 +45,12 @@ def make_dtype(name):
         return np.dtype([("p", [("x", "<i2"), ("y", "<f4")]), ("q", "<i8", (2,))])
     if name == "struct-bigendian":
         return np.dtype([("a", ">i4"), ("b", ">f8")])
+    if name == "struct-mixed-endian":
+        return np.dtype([("a", "<i4"), ("b", ">f8"), ("c", "<u2")])
+    if name == "struct-mixed-nested":
+        return np.dtype([("p", [("x", "<i4"), ("y", ">i2")]), ("q", ">i4")])
+    if name == "struct-big+bytes":
+        return np.dtype([("a", ">i4"), ("s", "S3"), ("u", "u1")])
     if name == "object":
         return np.dtype(object)
     return np.dtype(name)
